@@ -26,7 +26,7 @@ let run_pw (toks : string list) : string =
   match toks with
   | fault :: full :: ops ->
     let ops = Stdlib.List.map (fun t ->
-        let arg = String.sub t 1 (String.length t - 1) in
+        let arg = Stdlib.String.sub t 1 (Stdlib.String.length t - 1) in
         match t.[0] with
         | 'w' -> PagedWriter.PwWrite (bytes_of_hex arg)
         | 's' -> PagedWriter.PwSeek (n_of_decimal arg)
@@ -42,7 +42,7 @@ let run_pw (toks : string list) : string =
        let (s1, outs) = PagedWriter.pw_run ops s in
        let (s2, _) = PagedWriter.pw_drop s1 in
        let d = s2.PagedWriter.pw_dev in
-       String.concat " " (Stdlib.List.map res_num outs) ^ " | " ^ dev_summary d
+       Stdlib.String.concat " " (Stdlib.List.map res_num outs) ^ " | " ^ dev_summary d
        ^ (if full = "1" then " dev=" ^ hex_of_bytes d.Device.d_bytes else "")
      | Prelude.Err k -> "new:e" ^ err_name k ^ " | " ^ dev_summary d1
      | Prelude.Panic -> "new:P")
@@ -53,7 +53,7 @@ let run_pr (toks : string list) : string =
   match toks with
   | fault :: ps :: devhex :: ops ->
     let ops = Stdlib.List.map (fun t ->
-        let arg = String.sub t 1 (String.length t - 1) in
+        let arg = Stdlib.String.sub t 1 (Stdlib.String.length t - 1) in
         match t.[0] with
         | 's' -> PagedReader.PrSeek (n_of_decimal arg)
         | 'r' -> PagedReader.PrRead (n_of_decimal arg)
@@ -72,7 +72,7 @@ let run_pr (toks : string list) : string =
          | Prelude.Ok PagedReader.PoUnit -> "o"
          | Prelude.Err _ -> "e"
          | Prelude.Panic -> "P" in
-       String.concat " " (Stdlib.List.map show outs)
+       Stdlib.String.concat " " (Stdlib.List.map show outs)
        ^ Printf.sprintf " | ops=%d" (int_of_n s1.PagedReader.pr_dev.Device.d_ops)
      | Prelude.Err _ -> Printf.sprintf "new:e | ops=%d" (int_of_n d1.Device.d_ops)
      | Prelude.Panic -> "new:P")
@@ -81,7 +81,7 @@ let run_pr (toks : string list) : string =
 (* PWS ops...: the logical-stream specification of the writer *)
 let run_pws (toks : string list) : string =
   let ops = Stdlib.List.map (fun t ->
-      let arg = String.sub t 1 (String.length t - 1) in
+      let arg = Stdlib.String.sub t 1 (Stdlib.String.length t - 1) in
       match t.[0] with
       | 'w' -> PagedWriter.PwWrite (bytes_of_hex arg)
       | 's' -> PagedWriter.PwSeek (n_of_decimal arg)
@@ -92,7 +92,7 @@ let run_pws (toks : string list) : string =
       | _ -> failwith ("bad pw op " ^ t)) toks in
   let (s1, outs) = PageSpec.ls_run ops PageSpec.ls_init in
   let phys = PageSpec.paginate s1.PageSpec.ls_data in
-  String.concat " " (Stdlib.List.map res_num outs)
+  Stdlib.String.concat " " (Stdlib.List.map res_num outs)
   ^ Printf.sprintf " | len=%d h=%s" (Stdlib.List.length phys) (fnv_hex (fnv_bytes fnv_init phys))
 
 (* PRS <devhex> ops...: the logical-stream specification of the reader on strip_crc dev *)
@@ -100,7 +100,7 @@ let run_prs (toks : string list) : string =
   match toks with
   | devhex :: ops ->
     let ops = Stdlib.List.map (fun t ->
-        let arg = String.sub t 1 (String.length t - 1) in
+        let arg = Stdlib.String.sub t 1 (Stdlib.String.length t - 1) in
         match t.[0] with
         | 's' -> PagedReader.PrSeek (n_of_decimal arg)
         | 'r' -> PagedReader.PrRead (n_of_decimal arg)
@@ -116,12 +116,12 @@ let run_prs (toks : string list) : string =
       | Prelude.Ok PagedReader.PoUnit -> "o"
       | Prelude.Err _ -> "e"
       | Prelude.Panic -> "P" in
-    String.concat " " (Stdlib.List.map show outs)
+    Stdlib.String.concat " " (Stdlib.List.map show outs)
   | _ -> failwith "bad PRS case"
 
 (* ---- bit layer ---- *)
 let parse_type (s : string) : Record.dtype =
-  match String.split_on_char '/' s with
+  match Stdlib.String.split_on_char '/' s with
   | "F" :: _ -> Record.TSingle
   | "D" :: _ -> Record.TDouble
   | "I" :: mn :: mx :: _ -> Record.TInteger (z_of_decimal mn, z_of_decimal mx)
@@ -131,7 +131,7 @@ let parse_type (s : string) : Record.dtype =
 let n_of_hex (s : string) : BinNums.coq_N =
   let sixteen = n_of_int 16 in
   let acc = ref BinNums.N0 in
-  String.iter (fun c -> acc := BinNat.N.add (BinNat.N.mul !acc sixteen) (n_of_int (hexval c))) s;
+  Stdlib.String.iter (fun c -> acc := BinNat.N.add (BinNat.N.mul !acc sixteen) (n_of_int (hexval c))) s;
   !acc
 
 let hex_of_n (digits : int) (n : BinNums.coq_N) : string =
@@ -143,7 +143,7 @@ let hex_of_n (digits : int) (n : BinNums.coq_N) : string =
   go n digits ""
 
 let parse_value (s : string) : Record.rvalue =
-  let a = String.sub s 1 (String.length s - 1) in
+  let a = Stdlib.String.sub s 1 (Stdlib.String.length s - 1) in
   match s.[0] with
   | 'f' -> Record.VSingle (n_of_hex a)
   | 'd' -> Record.VDouble (n_of_hex a)
@@ -173,7 +173,7 @@ let run_bits (toks : string list) : string =
   | ty :: cuts :: vals ->
     let t = parse_type ty in
     let cuts = Stdlib.List.map int_of_string
-        (Stdlib.List.filter (fun x -> x <> "") (String.split_on_char ',' (String.sub cuts 1 (String.length cuts - 1)))) in
+        (Stdlib.List.filter (fun x -> x <> "") (Stdlib.String.split_on_char ',' (Stdlib.String.sub cuts 1 (Stdlib.String.length cuts - 1)))) in
     let vals = Stdlib.List.map parse_value vals in
     let w = int_of_n (Record.bit_size t) in
     let rec wr i vs b = match vs with
@@ -189,7 +189,7 @@ let run_bits (toks : string list) : string =
        let out = Printf.sprintf "w=%d stream=%s" w (hex_of_bytes stream) in
        if w = 0 then out else
          (match Record.feed_chunks t (split_chunks stream cuts) BsRead.bsr_new [] with
-          | Prelude.Ok (_, vs) -> out ^ " out=" ^ String.concat "," (Stdlib.List.map show_value vs)
+          | Prelude.Ok (_, vs) -> out ^ " out=" ^ Stdlib.String.concat "," (Stdlib.List.map show_value vs)
           | Prelude.Err k -> out ^ " re" ^ err_name k
           | Prelude.Panic -> out ^ " rP"))
   | _ -> failwith "bad BITS case"
@@ -204,7 +204,7 @@ let run_bitspec (toks : string list) : string =
     let stream = BitSpec.spec_stream_bytes t vals in
     let out = Printf.sprintf "w=%d stream=%s" w (hex_of_bytes stream) in
     if w = 0 then out else
-      out ^ " out=" ^ String.concat "," (Stdlib.List.map show_value (BitSpec.spec_decode_stream t stream))
+      out ^ " out=" ^ Stdlib.String.concat "," (Stdlib.List.map show_value (BitSpec.spec_decode_stream t stream))
   | _ -> failwith "bad BITSPEC case"
 
 let run_bw (toks : string list) : string =
@@ -212,13 +212,13 @@ let run_bw (toks : string list) : string =
   let b = ref BsWrite.bsw_new in
   (try
      Stdlib.List.iter (fun t ->
-         let a = String.sub t 1 (String.length t - 1) in
+         let a = Stdlib.String.sub t 1 (Stdlib.String.length t - 1) in
          let push x = outs := x :: !outs; if x = "P" then raise Exit in
          match t.[0] with
          | 'b' ->
-           let i = String.index a ':' in
-           let bits = n_of_decimal (String.sub a 0 i) in
-           let data = bytes_of_hex (String.sub a (i+1) (String.length a - i - 1)) in
+           let i = Stdlib.String.index a ':' in
+           let bits = n_of_decimal (Stdlib.String.sub a 0 i) in
+           let data = bytes_of_hex (Stdlib.String.sub a (i+1) (Stdlib.String.length a - i - 1)) in
            (match BsWrite.bsw_add_bits !b data bits with
             | Prelude.Ok b' -> b := b'; push "o" | _ -> push "P")
          | 'y' ->
@@ -234,14 +234,14 @@ let run_bw (toks : string list) : string =
             | _ -> push "P")
          | _ -> failwith "bad bw op") toks
    with Exit -> ());
-  String.concat " " (Stdlib.List.rev !outs)
+  Stdlib.String.concat " " (Stdlib.List.rev !outs)
 
 let run_br (toks : string list) : string =
   let outs = ref [] in
   let b = ref BsRead.bsr_new in
   (try
      Stdlib.List.iter (fun t ->
-         let a = String.sub t 1 (String.length t - 1) in
+         let a = Stdlib.String.sub t 1 (Stdlib.String.length t - 1) in
          let push x = outs := x :: !outs; if x = "P" then raise Exit in
          match t.[0] with
          | 'a' ->
@@ -257,36 +257,36 @@ let run_br (toks : string list) : string =
             | Prelude.Ok v -> push (decimal_of_n v) | _ -> push "P")
          | _ -> failwith "bad br op") toks
    with Exit -> ());
-  String.concat " " (Stdlib.List.rev !outs)
+  Stdlib.String.concat " " (Stdlib.List.rev !outs)
 
 (* ---- file level, binary side ---- *)
 let parse_proto (s : string) : Record.dtype list =
   (* name=type,name=type,... ; names are ignored by the binary model *)
   Stdlib.List.map (fun nt ->
-      match String.index_opt nt '=' with
-      | Some i -> parse_type (String.sub nt (i+1) (String.length nt - i - 1))
+      match Stdlib.String.index_opt nt '=' with
+      | Some i -> parse_type (Stdlib.String.sub nt (i+1) (Stdlib.String.length nt - i - 1))
       | None -> parse_type nt)
-    (Stdlib.List.filter (fun x -> x <> "") (String.split_on_char ',' s))
+    (Stdlib.List.filter (fun x -> x <> "") (Stdlib.String.split_on_char ',' s))
 
 let parse_points (s : string) : Record.rvalue list list =
   if s = "" then [] else
     Stdlib.List.map (fun p ->
-        Stdlib.List.map parse_value (Stdlib.List.filter (fun x -> x <> "") (String.split_on_char ',' p)))
-      (String.split_on_char ';' s)
+        Stdlib.List.map parse_value (Stdlib.List.filter (fun x -> x <> "") (Stdlib.String.split_on_char ',' p)))
+      (Stdlib.String.split_on_char ';' s)
 
 let parse_item (t : string) : FileBin.item =
-  match String.split_on_char ':' t with
+  match Stdlib.String.split_on_char ':' t with
   | ["B"; h] -> FileBin.IBlob (bytes_of_hex h)
   | ["P"; proto; pts] -> FileBin.IPc (parse_proto proto, parse_points pts)
   | ["P"; proto] -> FileBin.IPc (parse_proto proto, [])
   | _ -> failwith ("bad item " ^ t)
 
 let show_points (pts : Record.rvalue list list) : string =
-  String.concat ";" (Stdlib.List.map (fun p -> String.concat "," (Stdlib.List.map show_value p)) pts)
+  Stdlib.String.concat ";" (Stdlib.List.map (fun p -> Stdlib.String.concat "," (Stdlib.List.map show_value p)) pts)
 
 let fnv_string (s : string) : string =
   let h = ref fnv_init in
-  String.iter (fun c -> h := fnv_byte !h (Char.code c)) s;
+  Stdlib.String.iter (fun c -> h := fnv_byte !h (Char.code c)) s;
   fnv_hex !h
 
 let raw_summary_st (limit : int option) (s : PagedReader.pr) (fo : BinNums.coq_N) (recs : BinNums.coq_N) (proto : Record.dtype list)
@@ -305,7 +305,7 @@ let raw_summary_st (limit : int option) (s : PagedReader.pr) (fo : BinNums.coq_N
       match r with
       | Prelude.Ok (it', QueueReader.Item p) ->
         if !count > 0 then Buffer.add_char buf ';';
-        Buffer.add_string buf (String.concat "," (Stdlib.List.map show_value p));
+        Buffer.add_string buf (Stdlib.String.concat "," (Stdlib.List.map show_value p));
         incr count; loop s' it'
       | Prelude.Ok (_, QueueReader.Done) -> "none"
       | Prelude.Err k -> "e" ^ err_name k
@@ -313,7 +313,7 @@ let raw_summary_st (limit : int option) (s : PagedReader.pr) (fo : BinNums.coq_N
     let fin = loop s1 it in
     let txt = Buffer.contents buf in
     Printf.sprintf "n=%d end=%s h=%s%s" !count fin (fnv_string txt)
-      (if String.length txt <= 1500 then " pts=" ^ txt else "")
+      (if Stdlib.String.length txt <= 1500 then " pts=" ^ txt else "")
   | Prelude.Err k -> "new:e" ^ err_name k
   | Prelude.Panic -> "new:P" in
   (!last, txt)
@@ -330,8 +330,8 @@ let run_fw (toks : string list) : string =
     let dump = Stdlib.List.mem "DUMP" rest in
     let items = Stdlib.List.filter_map (fun t ->
         if t = "DUMP" then None else
-        if String.length t >= 2 && String.sub t 0 2 = "X:" then
-          (xml := Some (bytes_of_hex (String.sub t 2 (String.length t - 2))); None)
+        if Stdlib.String.length t >= 2 && Stdlib.String.sub t 0 2 = "X:" then
+          (xml := Some (bytes_of_hex (Stdlib.String.sub t 2 (Stdlib.String.length t - 2))); None)
         else Some (parse_item t)) rest in
     let d0 = Device.dev_init [] (fault_of fault) in
     let (d1, r) = PagedWriter.pw_new d0 in
@@ -366,7 +366,7 @@ let run_fw (toks : string list) : string =
        let rb =
          match ReaderOpen.reader_open (Device.dev_init d.Device.d_bytes None) with
          | (_, Prelude.Ok ((rs, _), _)) ->
-           String.concat "" (Stdlib.List.map (fun (it, o) ->
+           Stdlib.String.concat "" (Stdlib.List.map (fun (it, o) ->
                match it, o with
                | FileBin.IPc (proto, _), FileBin.OPc (fo, n) -> " # pc " ^ raw_summary rs fo n proto
                | FileBin.IBlob _, FileBin.OBlob (bo, bl) ->
@@ -377,7 +377,7 @@ let run_fw (toks : string list) : string =
                      | Prelude.Panic -> "P")
                | _ -> " # ??") (Stdlib.List.rev !results))
          | _ -> " # reopen-failed" in
-       String.concat " " (Stdlib.List.rev !outs) ^ " | " ^ dev_summary d ^ rb
+       Stdlib.String.concat " " (Stdlib.List.rev !outs) ^ " | " ^ dev_summary d ^ rb
        ^ (if dump then " dev=" ^ hex_of_bytes d.Device.d_bytes else "")
      | Prelude.Err k -> "new:e" ^ err_name k ^ " | " ^ dev_summary d1
      | Prelude.Panic -> "new:P")
@@ -453,7 +453,7 @@ let run_sess (toks : string list) : string =
        let st = ref s in
        let outs = ref ["open:ok"] in
        Stdlib.List.iter (fun t ->
-           let o = match String.split_on_char ':' t with
+           let o = match Stdlib.String.split_on_char ':' t with
              | ["X"] -> "xml=" ^ fnv_hex (fnv_bytes fnv_init xml)
              | ["R"; fo; recs; proto; limit] ->
                let lim = if limit = "all" then None else Some (int_of_string limit) in
@@ -468,7 +468,7 @@ let run_sess (toks : string list) : string =
                 | Prelude.Panic -> "P")
              | _ -> failwith ("bad sess op " ^ t) in
            outs := o :: !outs) ops;
-       String.concat " # " (Stdlib.List.rev !outs)
+       Stdlib.String.concat " # " (Stdlib.List.rev !outs)
      | (_, Prelude.Err k) -> "open:e" ^ err_name k
      | (_, Prelude.Panic) -> "open:P")
   | _ -> failwith "bad SESS case"
